@@ -70,8 +70,19 @@ Make(t) ==
                        [] t[2] = 5 -> [type |-> "dynamic", view |-> row]
                        [] OTHER -> [type |-> "frame", view |-> [type |-> "frame", view |-> row]]
          IN Vector(tree, t[8], t[3] = 1)
+\* N5: glyph-decorated frames under constraints without a practical bound.  TLC's integers end at 2^31, so the bounds are
+\* markers the harness expands: -1 = 2^64-1, -2 = 2^40, -3 = 2^64-2, -4 = 2^20.  Rendered into a fixed 9x11 window.
+UnbCt(i) == << <<0, 0, -1, -1>>, <<0, 0, 5, -1>>, <<0, 0, -1, 5>>, <<0, 0, -2, -2>>, <<1, 1, -3, -4>>, <<0, -4, 5, -4>> >>[i]
+Unb(k, g, c) ==
+  LET row == [type |-> "flex", direction |-> "horizontal", justify |-> "center", children |-> <<[view |-> Probe(0, 1), align |-> "center"], [view |-> Probe(1, 1), align |-> "end", flex |-> 1]>>]
+      tree == CASE k = 1 -> [type |-> "frame", view |-> Probe(0, 3)]
+                [] k = 2 -> [type |-> "frame", view |-> row]
+                [] k = 3 -> [type |-> "frame", view |-> [type |-> "frame", view |-> row]]
+                [] OTHER -> [type |-> "tag", tag |-> [name |-> "t"], view |-> [type |-> "frame", view |-> row]]
+  IN [tree |-> tree, ct |-> UnbCt(c), glyphs |-> (g = 1), surf |-> "fixed"]
+VecUnb == [i \in 1..48 |-> Unb(((i - 1) % 4) + 1, ((i - 1) \div 4) % 2, ((i - 1) \div 8) + 1)]
 Idx == SetToSeq(IF Sample = 0 THEN 0..(NAll - 1) ELSE RandomSubset(Sample, 0..(NAll - 1)))
-Vec == [i \in 1..Len(Idx) |-> Make(Decode(Idx[i]))]
+Vec == [i \in 1..Len(Idx) |-> Make(Decode(Idx[i]))] \o VecUnb
 ASSUME ndJsonSerialize(IOEnv.OUT, Vec)
 ASSUME PrintT(<<"GENERATED", Len(Vec), NAll>>)
 VARIABLE x
